@@ -690,6 +690,9 @@ func (n *nodeSim) noteSend(rec *sendRec, t *simk.Task) {
 	if tr := n.byTag[rec.tag]; tr != nil && rec.kind == "data" {
 		tr.sends = append(tr.sends, rec)
 	}
+	if rec.kind == "other" && rec.parseErr == nil {
+		n.reportWithoutFlag(&rec.bundle, fmt.Sprintf("handed to p%d", rec.peer))
+	}
 	n.lg.Add("send-invoked p%d %s %s id=%s", rec.peer, rec.kind, rec.tag, rec.idStr)
 	n.dtlsrBroadcastSend(rec, false)
 	if rec.kind == "meta" && n.algo == "prophet" {
